@@ -147,6 +147,17 @@ class Sub:
     def __eq__(self, other):
         return self is other
 
+    def failing_when_called(self):
+        """The same subscriber as a plain function that records the call and then raises
+        instead of returning an awaitable (fails when CALLED, not when awaited)."""
+        if getattr(self, "_sync_fn", None) is None:
+            def fn(*a, **kw):
+                self.calls.append((a, kw))
+                self.log.add("SUB.call", name=self.name, args=a, kwargs=kw)
+                raise RuntimeError(f"subscriber {self.name} fails when called")
+            self._sync_fn = fn
+        return self._sync_fn
+
     async def on_update(self, *a, **kw):
         """The same subscriber as a bound method: `sub.on_update` is a fresh (equal, not
         identical) object on every attribute access, as in `x.subscribe(obj.handler)` followed
